@@ -264,6 +264,40 @@ fn random_job(ctx: &Ctx, job: usize, iters: u64) -> Stats {
     st
 }
 
+/// Multi-byte characters lying ACROSS the block boundaries a reader may use (4 KiB .. 192 KiB):
+/// a name's é / 中 / 𝒳 starts 1..3 bytes before the boundary, after padding by a comment, by
+/// blanks, or inside one long name. Texts beyond 64 KiB are texts too.
+fn alignment_job(job: usize, jobs: usize) -> Stats {
+    let mut st = Stats::new();
+    let mut k = 0usize;
+    for boundary in [4096usize, 8192, 16384, 32768, 65536, 131072, 196608] {
+        for ch in ["é", "中", "𝒳"] {
+            for back in 1..ch.len() {
+                for pad_kind in 0..3 {
+                    k += 1;
+                    if k % jobs != job {
+                        continue;
+                    }
+                    // the character's first byte sits at offset boundary - back
+                    let head = "caf";
+                    let before = boundary - back - head.len();
+                    let text = match pad_kind {
+                        0 => format!("\"{}\"{}{} & b{}c", "x".repeat(before - 2), head, ch, ch),
+                        1 => format!("{}{}{} & b{}c", " ".repeat(before), head, ch, ch),
+                        _ => format!("{}{}{} & b{}c", "n".repeat(before), head, ch, ch),
+                    };
+                    debug_assert!(text.is_char_boundary(boundary - back) && !text.is_char_boundary(boundary));
+                    check_text(&mut st, &text, true, "alignment");
+                    st.bump("texts_with_a_character_across_a_block_boundary");
+                    // and the same text one byte further on / back
+                    check_text(&mut st, &format!(" {}", text), false, "alignment");
+                }
+            }
+        }
+    }
+    st
+}
+
 /// Texts that look like something a shell, a quoting layer or an option parser might want to
 /// "help" with: whole texts in primes (a prime is an identifier character), in double quotes
 /// (a comment), in backslashes, starting with dashes or equal signs.
@@ -415,6 +449,8 @@ pub fn run(ctx: &Ctx) -> (Stats, Spec) {
     for t in CURATED {
         check_text(&mut st, t, true, "curated");
     }
+    let parts = util::par_jobs(16, |job| alignment_job(job, 16));
+    st.merge(crate::report::merge_all(parts));
     // (d) the tool as a reader of texts
     let cli_iters = ctx.tier.pick(60u64, 4_000u64);
     let parts = util::par_jobs(16, |job| cli_job(ctx, job, cli_iters));
@@ -423,7 +459,7 @@ pub fn run(ctx: &Ctx) -> (Stats, Spec) {
         check_text(&mut st, t, true, "negation-and-edge-cases");
     }
     let spec = Spec {
-        rule: "exhaustive token sequences (full 33-kind alphabet to length 4 [quick] / 5 [thorough]; reduced alphabet at length 5 / 6), exhaustive character strings over 16 characters to length 5 / 6, random well-formed texts with every alias spelling and their token-level mutations (delete / duplicate / swap / replace / insert / drop a bracket / truncate), splices, soups, a curated Unicode set, and texts of 8-60 KiB (padding by comments / whitespace / separator lines before, inside and after a formula); plus the TOOL as reader: random, mutated and quote-/prime-/bracket-wrapped texts given to rsbdd by -e, --evaluate=, file or standard input, its -p parse-tree export read back and compared with the reference tree (non-sentences must make it exit non-zero). distinct = text; non-trivial = >= 3 tokens and either accepted, or rejected by the reference only after >= 2 tokens were consumed.".into(),
+        rule: "exhaustive token sequences (full 33-kind alphabet to length 4 [quick] / 5 [thorough]; reduced alphabet at length 5 / 6), exhaustive character strings over 16 characters to length 5 / 6, random well-formed texts with every alias spelling and their token-level mutations (delete / duplicate / swap / replace / insert / drop a bracket / truncate), splices, soups, a curated Unicode set, and texts of 8-60 KiB (padding by comments / whitespace / separator lines before, inside and after a formula), and texts of 4-192 KiB in which a 2-, 3- or 4-byte character of a name lies across a block boundary (4 KiB .. 192 KiB); plus the TOOL as reader: random, mutated and quote-/prime-/bracket-wrapped texts given to rsbdd by -e, --evaluate=, file or standard input, its -p parse-tree export read back and compared with the reference tree (non-sentences must make it exit non-zero). distinct = text; non-trivial = >= 3 tokens and either accepted, or rejected by the reference only after >= 2 tokens were consumed.".into(),
         assumptions: vec![
             "the reference grammar is DESIGN.md 2.1/2.2 (written from README + property statement); `\\w` / `\\d` are the regex crate's Unicode classes".into(),
             "a digit run that is not an ASCII number fitting the machine integer must be rejected".into(),
@@ -434,6 +470,7 @@ pub fn run(ctx: &Ctx) -> (Stats, Spec) {
             ("token_lists_compared".into(), 100_000, "token lists hardly compared".into()),
             ("mutated_texts".into(), 10_000, "mutations not exercised".into()),
             ("large_texts".into(), 50, "texts beyond 8 KiB not exercised".into()),
+            ("texts_with_a_character_across_a_block_boundary".into(), 100, "multi-byte characters across block boundaries not exercised".into()),
             ("cli_accepted_same_tree".into(), 150, "the tool's reading of texts hardly compared".into()),
             ("cli_rejected_by_both".into(), 100, "the tool's refusal of non-sentences hardly exercised".into()),
         ],
